@@ -19,6 +19,14 @@ package main
 // host's user may run stock git (pack-refs, gc, fetch): the repository is looked at just before and just after such a
 // command, and what git-bug must leave alone is compared over every stretch between two of them. After every action
 // git for-each-ref is asked which references it finds broken.
+//
+// Some hosts are clones (symbolic references below refs/: refs/remotes/origin/HEAD, an alias branch), some hold regular
+// files only; every host is in the middle of some work: staged but uncommitted changes, an amended commit only the reflog
+// knows, a dangling object, possibly a stash with two entries. A few sessions create or pull MANY entities ("bulk": more
+// than a hundred references) so that anything triggered by size is reached. Observed besides: whether git for-each-ref
+// completes after every action, the lines that appeared in packed-refs, the objects of the object store that disappeared,
+// what the host's user sees of his own work (stash entries as patches, the staged change as a patch, the reflogs walked)
+// at both ends of every stretch, and whether git commit of what was staged works on a copy of the repository.
 
 import (
 	"bytes"
@@ -56,7 +64,9 @@ type c15Action struct {
 }
 
 type c15Host struct {
-	Cfg          []string `json:"cfg"` // multi-url multi-branch comments valueless (benign foreign configuration is always there)
+	Cfg          []string `json:"cfg"`             // multi-url multi-branch comments valueless (benign foreign configuration is always there)
+	Clone        bool     `json:"clone,omitempty"` // like a clone: refs/remotes/origin/HEAD is a symbolic reference; a symbolic branch refs/heads/alias
+	Plain        bool     `json:"plain,omitempty"` // the committed files are regular files only (no symbolic link)
 	Packed       bool     `json:"packed,omitempty"`
 	Detached     bool     `json:"detached,omitempty"`
 	Stash        bool     `json:"stash,omitempty"`
@@ -278,22 +288,62 @@ func c15GenSession(r *Rand, i int, maxActions int) c15Input {
 		h := c15Action{K: "rm-hostile", Via: "lib", S: []string{"../heads/feature/x", "../tags/v1", "../../refs/heads/main", "../remotes/origin/main", "../custom/thing"}[r.Intn(5)]}
 		in.Actions = append(in.Actions[:pos], append([]c15Action{h}, in.Actions[pos:]...)...)
 	}
+	// (drawn last, so that the sessions generated before these existed stay what they were)
+	// the kind of repository: a clone (symbolic references below refs/), regular files only
+	in.Host.Clone = r.Chance(1, 2)
+	in.Host.Plain = r.Chance(1, 2)
+	if i%25 == 11 {
+		// (one session in twenty-five, evenly spread: these are the biggest cases, no two of them in one shard)
+		// MANY entities at once (an import, a big pull): whatever is triggered by the number of references or objects is
+		// reached; the rest of the session goes on in a repository of that size
+		pos := r.Range(1, len(in.Actions))
+		var b c15Action
+		if r.Chance(1, 3) {
+			b = c15Action{K: "peer", Remote: "origin", S: "new", E: r.Intn(1000), N: r.Range(51, 60)} // the next pull brings them all (two references each)
+			if !c15HasAfter(in.Actions, pos, "pull") {
+				in.Actions = append(in.Actions, c15Action{K: "pull", Via: via(), Remote: "origin"})
+			}
+		} else {
+			b = c15Action{K: "bulk", Via: "lib", N: r.Range(96, 116)}
+		}
+		in.Actions = append(in.Actions[:pos], append([]c15Action{b}, in.Actions[pos:]...)...)
+		if r.Chance(1, 2) {
+			// ... and something is removed afterwards
+			in.Actions = append(in.Actions, c15Action{K: "rm", Via: via(), E: r.Intn(1000)})
+		}
+	}
 	return in
 }
 
+func c15HasAfter(as []c15Action, pos int, k string) bool {
+	for _, a := range as[pos:] {
+		if a.K == k && a.Remote != "backup" {
+			return true
+		}
+	}
+	return false
+}
+
 func (c15Driver) Gen(r *Rand, tier string) []json.RawMessage {
-	n, maxA := 104, 16 // 104 random sessions + 8 targeted maintenance sessions: as many cases as before those were added
+	n, maxA := 100, 16 // 100 random sessions + 8 targeted maintenance sessions + 4 sessions with many entities: as many cases as before those were added
 	if tier == "thorough" {
 		n, maxA = 1800, 30
 	}
 	var res []json.RawMessage
 	// the smallest sessions first: one stored key on every kind of host configuration
+	tg := c15Targeted()
+	big, tg := tg[len(tg)-4:], tg[:len(tg)-4] // the sessions with many entities: the biggest cases, spread over the first two shards (the smallest cases)
 	for _, cfg := range [][]string{nil, {"multi-url"}, {"multi-branch"}, {"comments"}, {"valueless"}, {"multi-url", "multi-branch", "comments"}} {
 		for _, via := range []string{"cli", "lib"} {
 			res = append(res, mustJSON(c15Input{Host: c15Host{Cfg: cfg, Packed: via == "cli", Notes: true}, Actions: []c15Action{{K: "user-new", Via: via}}}))
+			switch len(res) {
+			case 1, 3, 8, 10:
+				res = append(res, big[0])
+				big = big[1:]
+			}
 		}
 	}
-	res = append(res, c15Targeted()...)
+	res = append(res, tg...)
 	for i := 0; i < n; i++ {
 		res = append(res, mustJSON(c15GenSession(r.Fork(), i, maxA)))
 	}
@@ -314,9 +364,9 @@ func c15Targeted() []json.RawMessage {
 			acts = append(acts, c15Action{K: "push", Via: via, Remote: "backup"})
 		}
 		acts = append(acts, c15Action{K: "wipe", Via: via})
-		res = append(res, mustJSON(c15Input{Host: c15Host{SecondRemote: lib, Packed: !lib, Notes: true}, Actions: acts}))
+		res = append(res, mustJSON(c15Input{Host: c15Host{SecondRemote: lib, Packed: !lib, Notes: true, Clone: lib, Plain: !lib, Stash: !lib}, Actions: acts}))
 		// removal of one entity at a time, then the rest
-		res = append(res, mustJSON(c15Input{Host: c15Host{SecondRemote: !lib, Packed: lib}, Actions: []c15Action{{K: "user-new", Via: via},
+		res = append(res, mustJSON(c15Input{Host: c15Host{SecondRemote: !lib, Packed: lib, Clone: !lib, Plain: lib, Stash: lib}, Actions: []c15Action{{K: "user-new", Via: via},
 			{K: "bug-new", Via: via}, {K: "bug-new", Via: via}, {K: "push", Via: via, Remote: "origin"}, {K: "rm", Via: via, E: 1},
 			{K: "wipe", Via: via}}}))
 	}
@@ -365,8 +415,26 @@ func c15Targeted() []json.RawMessage {
 		acts = append(acts, ms[0], c15Action{K: "peer", Remote: "origin", N: 2}, c15Action{K: "pull", Via: via, Remote: "origin"},
 			c15Action{K: "comment", Via: via}, c15Action{K: "push", Via: via, Remote: "origin"},
 			ms[1], c15Action{K: "peer", Remote: "origin", N: 1, E: 2}, c15Action{K: "pull", Via: via, Remote: "origin"})
-		res = append(res, mustJSON(c15Input{Keep: keep, Host: c15Host{Packed: i%2 == 1, Notes: i%3 == 0, Linked: i == 4}, Actions: acts}))
+		res = append(res, mustJSON(c15Input{Keep: keep, Host: c15Host{Packed: i%2 == 1, Notes: i%3 == 0, Linked: i == 4, Clone: i%4 == 1, Plain: i%4 == 2}, Actions: acts}))
 	}
+	// (5) MANY entities (an import, a big pull): more than a hundred references come into being in one library session, in
+	// a repository that is a clone (symbolic references refs/remotes/origin/HEAD, refs/heads/alias) and whose user is in
+	// the middle of some work (staged changes, an amended commit, two stash entries, a dangling object); then the binary
+	// and the library go on in that repository, something is removed, the host's user packs, the second user goes on.
+	// Whatever git-bug does by itself once the repository is big (packing, pruning, compacting) is reached here.
+	res = append(res, mustJSON(c15Input{Host: c15Host{Clone: true, Plain: true, Stash: true}, Actions: []c15Action{{K: "user-new", Via: "lib"},
+		{K: "bulk", Via: "lib", N: 108}, {K: "bug-new", Via: "cli"}, {K: "comment", Via: "lib", E: 7, N: 1}, {K: "rm", Via: "lib", E: 3},
+		{K: "ls", Via: "cli"}, {K: "title", Via: "cli", E: 50, Short: true}}}))
+	res = append(res, mustJSON(c15Input{Keep: true, Host: c15Host{Clone: true, Notes: true, Stash: true}, Actions: []c15Action{{K: "user-new", Via: "lib"},
+		{K: "bug-new", Via: "lib", N: 2}, {K: "push", Via: "lib", Remote: "origin"}, {K: "peer", Remote: "origin", S: "new", N: 56},
+		{K: "pull", Via: "lib", Remote: "origin"}, {K: "comment", Via: "lib", E: 5}, {K: "pack-refs"}, {K: "peer", Remote: "origin", N: 3, E: 1},
+		{K: "pull", Via: "lib", Remote: "origin"}, {K: "rm", Via: "lib", E: 11}}}))
+	res = append(res, mustJSON(c15Input{Host: c15Host{Clone: true, Plain: true, Packed: true, Detached: true}, Actions: []c15Action{{K: "user-new", Via: "cli"},
+		{K: "bulk", Via: "lib", N: 101}, {K: "bug-new", Via: "cli"}, {K: "rm", Via: "cli", E: 40, Short: true}, {K: "peer", Remote: "origin", S: "new", N: 4},
+		{K: "pull", Via: "cli", Remote: "origin"}, {K: "wipe", Via: "cli"}}}))
+	res = append(res, mustJSON(c15Input{Keep: true, Host: c15Host{Plain: true, Stash: true, Linked: true, SecondRemote: true}, Actions: []c15Action{{K: "user-new", Via: "lib"},
+		{K: "bulk", Via: "lib", N: 30}, {K: "push", Via: "lib", Remote: "backup"}, {K: "rm", Via: "lib", E: 2}, {K: "gc", N: 1}, {K: "bug-new", Via: "cli", Cwd: "@wt"},
+		{K: "wipe", Via: "lib"}}}))
 	return res
 }
 
@@ -390,12 +458,19 @@ type c15Session struct {
 	wrote   bool
 	cwd     string // of the action being run
 
-	kept      repository.TestedRepo // the repository opened once for the whole session (input "keep")
-	breaks    [][2]c15Snap          // around every command of the host's user (stock git): the repository just before and just after it
-	nHostUser int                   // number of commands of the host's user
-	maintBad  []string              // commands of the host's user that stock git refused to complete
-	broken    map[string]string     // references stock git reports as broken -> when it was first seen
-	refNotice map[string]bool       // every other warning or error line of git for-each-ref
+	kept                  repository.TestedRepo // the repository opened once for the whole session (input "keep")
+	breaks                [][2]c15Snap          // around every command of the host's user (stock git): the repository just before and just after it
+	nHostUser             int                   // number of commands of the host's user
+	maintBad              []string              // commands of the host's user that stock git refused to complete
+	broken                map[string]string     // references stock git reports as broken -> when it was first seen
+	refNotice             map[string]bool       // every other warning or error line of git for-each-ref
+	unreadable            []int                 // numbers of the actions after which git for-each-ref did not complete
+	unreadMsg             string                // what it said the first time
+	lastObjs              map[string]bool       // the object files as they were after the previous action (to name the action that loses objects)
+	stretch               c15Snap               // the repository at the start of the current stretch (the session's start, or just after the last command of the host's user)
+	packedAdded, lostObjs []string              // over all stretches: lines that appeared in packed-refs, objects that disappeared
+	probeRes              []c15Probe            // over all stretches: the views of the host's own work at both ends
+	lostAt                string                // the first action of git-bug after which objects of the object store were gone
 
 	harvested  map[string]bool // objects already read by written()
 	seenTrees  []c15Tree
@@ -560,14 +635,26 @@ func (s *c15Session) setupHost() {
 	c15Write(filepath.Join(h, "exe.sh"), "#!/bin/sh\nexit 0\n", 0o755)
 	c15Write(filepath.Join(h, "gone.txt"), "to be deleted\n", 0o644)
 	c15Write(filepath.Join(h, ".gitignore"), "*.tmp\n", 0o644)
-	_ = os.Symlink("a.txt", filepath.Join(h, "link"))
+	if !s.in.Host.Plain {
+		_ = os.Symlink("a.txt", filepath.Join(h, "link"))
+	}
 	s.mustGit(h, "add", ".")
 	s.mustGit(h, "commit", "-q", "-m", "one")
 	s.mustGit(h, "branch", "feature/x")
 	s.mustGit(h, "tag", "v1")
 	s.mustGit(h, "tag", "-a", "v2", "-m", "annotated")
-	c15Write(filepath.Join(h, "a.txt"), "alpha\nsecond\n", 0o644)
+	c15Write(filepath.Join(h, "a.txt"), "alpha\nsecnd\n", 0o644)
+	c15Write(filepath.Join(h, "old.txt"), "only in the commit that was amended\n", 0o644)
+	s.mustGit(h, "add", "old.txt")
 	s.mustGit(h, "commit", "-q", "-am", "two")
+	// ... amended: the first version of the commit, its tree and the two blobs are known to the reflog only
+	// (git reset --hard HEAD@{1} must stay possible)
+	c15Write(filepath.Join(h, "a.txt"), "alpha\nsecond\n", 0o644)
+	s.mustGit(h, "rm", "-q", "-f", "old.txt")
+	s.mustGit(h, "commit", "-q", "--amend", "-am", "two")
+	// an object nothing refers to (git hash-object -w: a blob written by some tool, an interrupted git add)
+	c15Write(filepath.Join(s.root, "dangling.txt"), "an object nothing refers to\n", 0o644)
+	s.mustGit(h, "hash-object", "-w", filepath.Join(s.root, "dangling.txt"))
 	s.mustGit(h, "update-ref", "refs/custom/thing", "HEAD")
 	// the host's own references whose names merely begin like git-bug's namespaces
 	s.mustGit(h, "update-ref", "refs/bugs-archive/thing", "HEAD")
@@ -583,6 +670,11 @@ func (s *c15Session) setupHost() {
 	s.mustGit(h, "push", "-q", "origin", "main", "feature/x", "v1", "main:bugs-triage", "feature/x:bugsnag-upgrade", "main:identities-old")
 	s.mustGit(h, "fetch", "-q", "origin")
 	s.mustGit(h, "branch", "-q", "-u", "origin/main", "main")
+	if s.in.Host.Clone {
+		// what git clone leaves behind: the symbolic reference refs/remotes/origin/HEAD; and a branch that is an alias of another
+		s.mustGit(h, "remote", "set-head", "origin", "main")
+		s.mustGit(h, "symbolic-ref", "refs/heads/alias", "refs/heads/feature/x")
+	}
 	// somebody else tagged, on the remote, a commit the host already has: a fetch that follows tags would create
 	// refs/tags/remote-only in the host
 	s.mustGit(rem, "tag", "remote-only", "refs/heads/main")
@@ -594,6 +686,10 @@ func (s *c15Session) setupHost() {
 		s.mustGit(h, "fetch", "-q", "backup")
 	}
 	if s.in.Host.Stash {
+		// two entries: the older one is known to the reflog of refs/stash only
+		c15Write(filepath.Join(h, "a.txt"), "alpha\nsecond\nstashed first\n", 0o644)
+		c15Write(filepath.Join(h, "d", "b.txt"), "beta, stashed first\n", 0o644)
+		s.mustGit(h, "stash", "-q")
 		c15Write(filepath.Join(h, "a.txt"), "alpha\nsecond\nstashed\n", 0o644)
 		s.mustGit(h, "stash", "-q")
 	}
@@ -679,9 +775,67 @@ type c15Snap struct {
 	Cfg   [][2]string // key, value ("\x00" = key without value)
 	Aux   []string    // comment lines
 	Files [][2]string // path below the git directory, digest
+	// what the host's user sees of his own work through stock git: the stash entries as patches, the staged change as a
+	// patch, the reflogs walked: name, digest of the output ("failed: ..." when the command does not complete)
+	Probes [][2]string
+	Packed []string // the lines of packed-refs
+	Objs   []string // every object of the object store (loose or packed, of any type, reachable or not)
 }
 
 func c15Digest(b []byte) string { return fmt.Sprintf("%x", sha256.Sum256(b)) }
+
+// shown: the part of a photograph that goes to the model comparison (references, HEAD, index, work tree, configuration, files)
+func (sn c15Snap) shown() c15Snap {
+	sn.Probes, sn.Packed, sn.Objs = nil, nil, nil
+	return sn
+}
+
+// c15Probe: one view of the host's own work, at the start and at the end of a stretch
+type c15Probe struct {
+	Name          string
+	Before, After string
+}
+
+// endStretch: a stretch in which only git-bug acted ends with the repository as photographed in end: the lines that
+// appeared in packed-refs, the objects that disappeared from the object store, the views of the host's own work at both ends
+func (s *c15Session) endStretch(end c15Snap) {
+	start := s.stretch
+	had := map[string]bool{}
+	for _, l := range start.Packed {
+		had[l] = true
+	}
+	for _, l := range end.Packed {
+		if !had[l] {
+			s.packedAdded = append(s.packedAdded, l)
+		}
+	}
+	still := map[string]bool{}
+	for _, id := range end.Objs {
+		still[id] = true
+	}
+	for _, id := range start.Objs {
+		if !still[id] {
+			s.lostObjs = append(s.lostObjs, id)
+		}
+	}
+	am := map[string]string{}
+	for _, p := range end.Probes {
+		am[p[0]] = p[1]
+	}
+	for _, p := range start.Probes {
+		a, ok := am[p[0]]
+		if !ok {
+			a = "failed: not there any more"
+		}
+		s.probeRes = append(s.probeRes, c15Probe{p[0], p[1], a})
+		delete(am, p[0])
+	}
+	for _, p := range end.Probes {
+		if a, ok := am[p[0]]; ok {
+			s.probeRes = append(s.probeRes, c15Probe{p[0], "failed: was not there", a})
+		}
+	}
+}
 
 func c15FileDigest(p string, info fs.FileInfo) string {
 	if info.Mode()&os.ModeSymlink != 0 {
@@ -697,10 +851,19 @@ func c15FileDigest(p string, info fs.FileInfo) string {
 
 var c15BrokenRe = regexp.MustCompile(`^(?:warning|error): (?:ignoring )?(broken ref|dangling symref|ref with broken name) (\S+)`)
 
-// refs: what git for-each-ref lists; the references it warns about (an empty or malformed file below refs/ is a "broken
-// ref" that git skips) are remembered with the moment they were first seen
+// refs: what git for-each-ref lists (a symbolic reference: its object and its target); the references it warns about (an
+// empty or malformed file below refs/ is a "broken ref" that git skips) are remembered with the moment they were first
+// seen; so is every time the command does not complete at all (exit status: stock git cannot read the references)
 func (s *c15Session) refs() [][2]string {
-	out := s.mustGit(s.host, "for-each-ref", "--format=%(refname) %(objectname)")
+	out, err := s.git(s.host, "for-each-ref", "--format=%(refname) %(objectname) %(symref)")
+	if err != nil {
+		if len(s.unreadable) == 0 || s.unreadable[len(s.unreadable)-1] != s.counter {
+			s.unreadable = append(s.unreadable, s.counter)
+		}
+		if s.unreadMsg == "" {
+			s.unreadMsg = fmt.Sprintf("after action %d: git for-each-ref: %v: %s", s.counter, err, c15Tail(strings.TrimSpace(out)))
+		}
+	}
 	var res [][2]string
 	for _, l := range strings.Split(strings.TrimSpace(out), "\n") {
 		if m := c15BrokenRe.FindStringSubmatch(l); m != nil {
@@ -721,6 +884,8 @@ func (s *c15Session) refs() [][2]string {
 		}
 		if f := strings.Fields(l); len(f) == 2 {
 			res = append(res, [2]string{f[0], f[1]})
+		} else if len(f) == 3 {
+			res = append(res, [2]string{f[0], f[1] + " -> " + f[2]})
 		}
 	}
 	sort.Slice(res, func(i, j int) bool { return res[i][0] < res[j][0] })
@@ -817,7 +982,101 @@ func (s *c15Session) snapshot() c15Snap {
 	})
 	sort.Slice(sn.Wt, func(i, j int) bool { return sn.Wt[i][0] < sn.Wt[j][0] })
 	sort.Slice(sn.Files, func(i, j int) bool { return sn.Files[i][0] < sn.Files[j][0] })
+	sn.Probes = s.probes()
+	if b, err := os.ReadFile(filepath.Join(s.gitdir, "packed-refs")); err == nil {
+		for _, l := range strings.Split(string(b), "\n") {
+			if l != "" {
+				sn.Packed = append(sn.Packed, l)
+			}
+		}
+	}
+	for id := range s.allObjects() {
+		sn.Objs = append(sn.Objs, id)
+	}
+	sort.Strings(sn.Objs)
 	return sn
+}
+
+// allObjects: every object of the host's object store, of any type
+func (s *c15Session) allObjects() map[string]bool {
+	// as long as there is no pack (before the first git gc or big fetch) these are the loose object files: no process needed
+	if loose := s.looseObjects(); len(loose) > 0 {
+		packs := false
+		for k := range loose {
+			if strings.HasPrefix(k, "pack/") {
+				packs = true
+				break
+			}
+		}
+		if !packs {
+			return loose
+		}
+	}
+	out := s.mustGit(s.host, "cat-file", "--batch-all-objects", "--batch-check=%(objectname)", "--unordered")
+	m := map[string]bool{}
+	for _, l := range strings.Fields(out) {
+		m[l] = true
+	}
+	return m
+}
+
+var c15ReflogNsRe = regexp.MustCompile(`^\S+ \S+ refs/(bugs|identities|remotes/[^@]+/(bugs|identities))/`)
+
+// probes: the work of the host's user as stock git shows it to him; every one of these commands only reads
+func (s *c15Session) probes() [][2]string {
+	var res [][2]string
+	probe := func(name, dir string, keep func(string) bool, args ...string) string {
+		out, err := s.git(dir, args...)
+		if err != nil {
+			res = append(res, [2]string{name, "failed: " + c15Tail(strings.TrimSpace(out))})
+			return ""
+		}
+		if keep != nil {
+			var ls []string
+			for _, l := range strings.Split(out, "\n") {
+				if keep(l) {
+					ls = append(ls, l)
+				}
+			}
+			out = strings.Join(ls, "\n")
+		}
+		res = append(res, [2]string{name, c15Digest([]byte(out))})
+		return out
+	}
+	// the stash: the list, and every entry as a patch (needs the commits, trees and blobs of the entry)
+	// (on a host that has one; whether refs/stash exists is part of the references everywhere)
+	// (the list of the entries is part of the reflogs walked below: refs/stash@{0}, refs/stash@{1})
+	if s.in.Host.Stash {
+		for i := 0; i < 2; i++ {
+			probe(fmt.Sprintf("stash show -p stash@{%d}", i), s.host, nil, "stash", "show", "-p", "--binary", fmt.Sprintf("stash@{%d}", i))
+		}
+	}
+	// what is staged, as a patch against HEAD (needs the blobs only the index holds)
+	probe("diff --cached", s.host, nil, "diff", "--cached", "--binary", "--no-ext-diff")
+	if s.in.Host.Linked {
+		probe("diff --cached (linked work tree)", filepath.Join(s.root, "wt"), nil, "diff", "--cached", "--binary", "--no-ext-diff")
+	}
+	// the reflogs of the host's own references, walked: commit, tree, entry (an entry whose commit is gone is skipped by
+	// git log -g: the walk comes out different); git-bug's references have no business there
+	probe("log -g --all", s.host, func(l string) bool { return !c15ReflogNsRe.MatchString(l) }, "log", "-g", "--all", "--format=%H %T %gD %gs")
+	return res
+}
+
+// commitOnCopy: on a copy of the whole repository, git commit of what is staged; the tree it commits ("" = refused)
+func (s *c15Session) commitOnCopy(tag string) (tree string, note string) {
+	cp := filepath.Join(s.root, "copy-"+tag)
+	if out, err := exec.Command("cp", "-a", s.host, cp).CombinedOutput(); err != nil {
+		panic("harness: cp -a: " + err.Error() + ": " + string(out))
+	}
+	defer os.RemoveAll(cp)
+	if out, err := s.git(cp, "commit", "-q", "--no-verify", "-m", "the staged work"); err != nil {
+		return "", c15Tail(strings.TrimSpace(out))
+	}
+	out, err := s.git(cp, "rev-parse", "HEAD^{tree}")
+	if err != nil {
+		return "", c15Tail(strings.TrimSpace(out))
+	}
+	return strings.TrimSpace(out), ""
 }
 
 var c15NsRe = regexp.MustCompile(`^refs/(bugs|identities)/.+|^refs/remotes/.+/(bugs|identities)/.+`)
@@ -848,6 +1107,44 @@ func (s *c15Session) light() map[string]string {
 	m["config"] = sb.String()
 	m["comments"] = strings.Join(aux, "\n")
 	return m
+}
+
+// looseObjects: the loose object files and the pack files of the object store, read from the directory (no process: this is
+// done after every action, to name the one after which objects are gone; the verdict uses git cat-file, per stretch)
+func (s *c15Session) looseObjects() map[string]bool {
+	m := map[string]bool{}
+	root := filepath.Join(s.gitdir, "objects")
+	ds, _ := os.ReadDir(root)
+	for _, d := range ds {
+		if !d.IsDir() || (len(d.Name()) != 2 && d.Name() != "pack") {
+			continue
+		}
+		fs, _ := os.ReadDir(filepath.Join(root, d.Name()))
+		for _, f := range fs {
+			if d.Name() == "pack" {
+				if strings.HasSuffix(f.Name(), ".pack") {
+					m["pack/"+f.Name()] = true
+				}
+			} else if !strings.HasPrefix(f.Name(), "tmp_") {
+				m[d.Name()+f.Name()] = true
+			}
+		}
+	}
+	return m
+}
+
+// lostObjects: the object files that were there after the previous action and are gone now
+func (s *c15Session) lostObjects() []string {
+	cur := s.looseObjects()
+	var lost []string
+	for id := range s.lastObjs {
+		if !cur[id] {
+			lost = append(lost, id)
+		}
+	}
+	sort.Strings(lost)
+	s.lastObjs = cur
+	return lost
 }
 
 // ------------------------------------------------------------------ library side
@@ -895,6 +1192,7 @@ func (s *c15Session) hostUser(ev map[string]interface{}, args ...string) {
 		}
 	}
 	pre := s.snapshot()
+	s.endStretch(pre)
 	out, err := s.git(s.host, args...)
 	ev["git"] = strings.Join(args, " ")
 	if err != nil {
@@ -902,9 +1200,11 @@ func (s *c15Session) hostUser(ev map[string]interface{}, args ...string) {
 		s.maintBad = append(s.maintBad, fmt.Sprintf("action %d: git %s: %s", s.counter, strings.Join(args, " "), c15Tail(strings.TrimSpace(out))))
 	}
 	// a command that changed nothing stock git shows (pack-refs; a second gc or fetch) does not split the session
-	if post := s.snapshot(); !reflect.DeepEqual(pre, post) {
+	post := s.snapshot()
+	if !reflect.DeepEqual(pre.shown(), post.shown()) {
 		s.breaks = append(s.breaks, [2]c15Snap{pre, post})
 	}
+	s.stretch = post
 	s.nHostUser++
 	for _, a := range args {
 		if a == "gc" || a == "fetch" || a == "pack-refs" {
@@ -1032,6 +1332,11 @@ func (s *c15Session) do(a c15Action) {
 		s.tags["cwd:"+a.Cwd] = true
 	}
 	defer func() { s.log = append(s.log, ev) }()
+	if len(s.unreadable) > 0 {
+		// stock git cannot list the references any more (neither can go-git): the damage is recorded, the session ends here
+		ev["err"] = "not run: stock git cannot read the references of the repository any more"
+		return
+	}
 	fail := func(err error, stderr string) {
 		if err != nil {
 			msg := err.Error()
@@ -1047,6 +1352,13 @@ func (s *c15Session) do(a c15Action) {
 		}
 	}
 	s.tags["act:"+a.K+"/"+a.Via] = true
+	switch a.K {
+	case "rm", "identity-rm", "rm-hostile", "wipe":
+		// what the entity that is going to be removed consists of is read now (as before a git gc of the host's user)
+		if _, _, err := s.written(); err != nil && s.harvestErr == nil {
+			s.harvestErr = err
+		}
+	}
 	bugs := s.idsUnder("refs/bugs/")
 	idents := s.idsUnder("refs/identities/")
 	unix := int64(1600000000 + s.counter)
@@ -1169,6 +1481,30 @@ func (s *c15Session) do(a c15Action) {
 				s.coq = append(s.coq, fmt.Sprintf("ACommit Bugs %s [%s]", coqRunes(string(b.Id())), c15Pack(a.N, true)))
 				return nil
 			})
+		}
+	case "bulk":
+		// many bugs created by one library session (an import): one opened repository, closed at the end
+		n := 0
+		withUser(func(repo repository.TestedRepo, author *identity.Identity) error {
+			for i := 0; i < a.N; i++ {
+				b, _, err := bug.Create(author, unix, fmt.Sprintf("title %d.%d", s.counter, i), fmt.Sprintf("message %d.%d", s.counter, i), nil, nil)
+				if err != nil {
+					return err
+				}
+				if err := b.Commit(repo); err != nil {
+					s.coq = append(s.coq, fmt.Sprintf("AStorage [[%s]] []", coqRunes("clocks")))
+					return err
+				}
+				n++
+				s.coq = append(s.coq, fmt.Sprintf("ACommit Bugs %s [%s]", coqRunes(string(b.Id())), c15Pack(0, true)))
+			}
+			return nil
+		})
+		ev["created"] = n
+		if n >= 100 {
+			s.tags["bulk:created>=100"] = true
+		} else if n >= 50 {
+			s.tags["bulk:created>=50"] = true
 		}
 	case "comment", "title", "status", "label", "comment-edit", "metadata":
 		id := s.pick(bugs, a.E)
@@ -1564,7 +1900,7 @@ func (s *c15Session) peerWork(a c15Action) {
 	for k := 0; k < a.N; k++ {
 		s.peerN++
 		unix := int64(1700000000 + s.peerN)
-		if len(ids) > 0 && (a.E+k)%2 == 0 {
+		if len(ids) > 0 && (a.E+k)%2 == 0 && a.S != "new" {
 			b, err := bug.Read(s.peer, ids[(a.E+k)%len(ids)])
 			if err != nil {
 				continue
@@ -1713,12 +2049,21 @@ var c15IdentRe = regexp.MustCompile(`^[^<>\n]* <[^<>\n]*> (0|[1-9][0-9]*) [+-][0
 
 func (s *c15Session) validity(after c15Snap) (fsck, clone, push bool, notes map[string]string) {
 	notes = map[string]string{}
-	out, err := s.git(s.host, "fsck", "--strict", "--no-dangling")
+	// --cache: what the index names counts as needed (a blob that is staged and not committed yet); reflogs count by
+	// default ("invalid reflog entry" when a commit only the reflog knows is gone)
+	out, err := s.git(s.host, "fsck", "--strict", "--full", "--cache", "--no-dangling")
 	fsck = err == nil
 	if !fsck || strings.Contains(out, "error") || strings.Contains(out, "warning") {
 		notes["fsck"] = c15Tail(out)
 		if strings.Contains(out, "error") {
 			fsck = false
+		}
+	}
+	if s.in.Host.Linked {
+		// the index of the linked work tree is looked at from there
+		if out, err := s.git(filepath.Join(s.root, "wt"), "fsck", "--strict", "--full", "--cache", "--no-dangling"); err != nil || strings.Contains(out, "error") {
+			fsck = false
+			notes["fsck (linked work tree)"] = c15Tail(out)
 		}
 	}
 	var want []string
@@ -1900,15 +2245,24 @@ func (c15Driver) Run(raw json.RawMessage) Case {
 	defer s.cleanup()
 	s.setupHost()
 	before := s.snapshot()
+	s.stretch = before
 	prev := s.light()
+	s.lastObjs = s.looseObjects()
 	firstDisturb := ""
 	for i, a := range in.Actions {
 		s.do(a)
 		cur := s.light()
+		lost := s.lostObjects()
 		if a.Via == "" && a.K != "peer" {
 			// a command of the host's user: what it changed is not git-bug's doing
 			prev = cur
 			continue
+		}
+		if len(lost) > 0 {
+			s.log[len(s.log)-1]["objects_gone"] = len(lost)
+			if s.lostAt == "" {
+				s.lostAt = fmt.Sprintf("%d:%s/%s", i, a.K, a.Via)
+			}
 		}
 		var comps []string
 		for _, k := range []string{"refs", "head", "index", "config", "comments"} {
@@ -1927,6 +2281,9 @@ func (c15Driver) Run(raw json.RawMessage) Case {
 	}
 	s.dropKept() // the long-lived process ends
 	after := s.snapshot()
+	if lost := s.lostObjects(); len(lost) > 0 && s.lostAt == "" {
+		s.lostAt = "when the long-lived process closed the repository"
+	}
 	// what git-bug must leave alone is compared over every stretch of the session between two commands of the host's user
 	segs := [][2]c15Snap{}
 	from := before
@@ -1944,6 +2301,18 @@ func (c15Driver) Run(raw json.RawMessage) Case {
 		notes["trees"] = terr.Error()
 		fsck = false
 	}
+	// git commit of what is staged (the index is compared byte by byte elsewhere), on a copy of the repository as it is now
+	commitOK := true
+	if tree, note := s.commitOnCopy("end"); tree == "" {
+		commitOK = false
+		notes["git-commit-of-the-staged-changes-on-a-copy"] = note
+	}
+	// per stretch: the lines that appeared in packed-refs, the objects that disappeared from the object store, the views
+	// of the host's own work at both ends
+	s.endStretch(after)
+	packedAdded, lostObjs, probes := s.packedAdded, s.lostObjs, s.probeRes
+	sort.Strings(packedAdded)
+	sort.Strings(lostObjs)
 	treeByID := map[string]c15Tree{}
 	for _, t := range trees {
 		treeByID[t.ID] = t
@@ -2057,6 +2426,39 @@ func (c15Driver) Run(raw json.RawMessage) Case {
 		sort.Strings(ls)
 		notes["for-each-ref"] = c15Tail(strings.Join(ls, "\n"))
 	}
+	if len(s.unreadable) > 0 {
+		tags["for-each-ref:bad"] = true
+		notes["stock-git-cannot-list-the-references"] = s.unreadMsg
+	}
+	if len(packedAdded) > 0 {
+		tags["packed-refs-written:bad"] = true
+		notes["lines-added-to-packed-refs"] = c15Tail(strings.Join(packedAdded, "\n"))
+	}
+	if len(lostObjs) > 0 {
+		tags["objects-gone:bad"] = true
+		notes["objects-gone-from-the-object-store"] = fmt.Sprintf("%d, first after action %s: %s", len(lostObjs), s.lostAt, c15Tail(strings.Join(lostObjs, " ")))
+	}
+	if !commitOK {
+		tags["commit-on-copy:bad"] = true
+	}
+	for _, p := range probes {
+		if p.Before != p.After || strings.HasPrefix(p.After, "failed") {
+			tags["host-work:bad"] = true
+			notes["git "+p.Name] = "at the start of the stretch: " + p.Before + "; at its end: " + p.After
+		}
+	}
+	if in.Host.Clone {
+		tags["host:clone-symrefs"] = true
+	}
+	if in.Host.Plain {
+		tags["host:regular-files-only"] = true
+	}
+	if in.Host.Stash {
+		tags["host:stash"] = true
+	}
+	if len(after.Refs) > 100 {
+		tags["refs-after>100"] = true
+	}
 	if len(s.maintBad) > 0 {
 		tags["host-user:bad"] = true
 		notes["stock-git-command-refused"] = c15Tail(strings.Join(s.maintBad, "\n"))
@@ -2165,6 +2567,10 @@ func (c15Driver) Run(raw json.RawMessage) Case {
 			ds = append(ds, e.Hash)
 		}
 	}
+	for _, p := range probes {
+		ds = append(ds, p.Before, p.After)
+	}
+	ds = append(ds, lostObjs...)
 	for _, x := range s.extras {
 		for _, op := range x.Ops {
 			ds = append(ds, op...)
@@ -2199,11 +2605,13 @@ func (c15Driver) Run(raw json.RawMessage) Case {
 		}
 		stored := "[]"
 		if x.Tree != "" {
-			t, ok := treeByID[x.Tree]
-			if !ok {
-				panic("harness: the extra tree " + x.Tree + " of commit " + x.Commit + " is not among the objects written during the session")
+			if t, ok := treeByID[x.Tree]; ok {
+				stored = entriesTerm(t)
+			} else {
+				// gone before it could be read (only an object store that loses objects does that)
+				notes["extra-tree-gone"] = "the extra tree " + x.Tree + " of commit " + x.Commit + " is not in the object store any more"
+				tags["objects-gone:bad"] = true
 			}
-			stored = entriesTerm(t)
 		}
 		xts = append(xts, "("+coqList(ops)+", "+stored+")")
 	}
@@ -2232,9 +2640,21 @@ func (c15Driver) Run(raw json.RawMessage) Case {
 	for _, b := range s.breaks {
 		bts = append(bts, "("+c15SnapTerm(b[0], rk)+", "+c15SnapTerm(b[1], rk)+")")
 	}
-	term := fmt.Sprintf("mkcase %s %s %s %s %s %s %s %s %s %s %s %s %s %s", c15SnapTerm(before, rk), c15SnapTerm(after, rk), coqList(s.coq), coqList(tts),
+	var uts, pts, lts []string
+	for _, n := range s.unreadable {
+		uts = append(uts, fmt.Sprintf("%d%%N", n))
+	}
+	for _, p := range probes {
+		ok := !strings.HasPrefix(p.Before, "failed") && !strings.HasPrefix(p.After, "failed")
+		pts = append(pts, fmt.Sprintf("(%s, %s, %d%%N, %d%%N)", coqRunes(p.Name), coqBool(ok), rk.m[p.Before], rk.m[p.After]))
+	}
+	for _, id := range lostObjs {
+		lts = append(lts, fmt.Sprintf("%d%%N", rk.m[id]))
+	}
+	term := fmt.Sprintf("mkcase %s %s %s %s %s %s %s %s %s %s %s %s %s %s %s %s %s %s %s", c15SnapTerm(before, rk), c15SnapTerm(after, rk), coqList(s.coq), coqList(tts),
 		coqBool(fsck), coqBool(clone), coqBool(push), coqList(xts), coqList(its), identCfg(before.Cfg), peerCfg,
-		coqList(bts), coqStrs(brokenNames), coqBool(len(s.maintBad) == 0))
+		coqList(bts), coqStrs(brokenNames), coqBool(len(s.maintBad) == 0),
+		coqList(uts), coqStrs(packedAdded), coqList(pts), coqList(lts), coqBool(commitOK))
 
 	var tl []string
 	for t := range tags {
@@ -2244,6 +2664,8 @@ func (c15Driver) Run(raw json.RawMessage) Case {
 	obs := map[string]interface{}{"actions": s.log, "first_disturbing_action": firstDisturb, "foreign_config_changes": cfgDetail,
 		"foreign_ref_changes": refDetail, "fsck": fsck, "clone_gc_fsck": clone, "push_with_receive_fsck": push, "notes": notes,
 		"refs_after": len(after.Refs), "trees": len(trees), "author_committer_lines": len(idents), "multi_operation_commits": len(s.extras),
-		"long_lived_process": in.Keep, "host_user_commands": s.nHostUser, "stretches_compared": len(segs), "broken_references": brokenNames, "stock_git_commands_refused": len(s.maintBad)}
+		"long_lived_process": in.Keep, "host_user_commands": s.nHostUser, "stretches_compared": len(segs), "broken_references": brokenNames, "stock_git_commands_refused": len(s.maintBad),
+		"for_each_ref_failed_after_actions": s.unreadable, "lines_added_to_packed_refs": len(packedAdded), "objects_gone": len(lostObjs), "first_action_losing_objects": s.lostAt,
+		"views_of_the_hosts_work_compared": len(probes), "commit_of_the_staged_changes_on_a_copy": commitOK}
 	return Case{Coq: term, Obs: obs, Tags: tl, NonTrivial: s.wrote, Key: string(raw)}
 }
